@@ -2072,6 +2072,14 @@ class BaseInterpreter(Generic[TContext, TEvent]):
                     return [resolved]
             if parent.initial and parent.initial in parent.states:
                 return [parent.states[parent.initial]]
+            # 🌐 A parallel parent has no `initial`: its normal entry is every
+            #    region. Returning nothing here entered no state at all.
+            if parent.type == "parallel":
+                return [
+                    child
+                    for child in parent.states.values()
+                    if child.type != "history"
+                ]
             return []
 
         if history_node.history == "deep":
